@@ -133,6 +133,71 @@ def cfg_value(slot, v, conn):
     return v
 
 
+_codec_classes = None
+
+
+def codec_classes():
+    global _codec_classes
+    if _codec_classes is None:
+        from udsoncan import DidCodec
+
+        class RawCodec(DidCodec):
+            def __init__(self, n):
+                self.n = n
+
+            def encode(self, v):
+                if not isinstance(v, bytes) or len(v) != self.n:
+                    raise ValueError('value must be %d bytes' % self.n)
+                return v
+
+            def decode(self, b):
+                if len(b) != self.n:
+                    raise ValueError('payload must be %d bytes' % self.n)
+                return b
+
+            def __len__(self):
+                return self.n
+
+        class RawAll(DidCodec):
+            def encode(self, v):
+                if not isinstance(v, bytes):
+                    raise ValueError('value must be bytes')
+                return v
+
+            def decode(self, b):
+                return b
+
+            def __len__(self):
+                raise DidCodec.ReadAllRemainingData
+        _codec_classes = (RawCodec, RawAll)
+    return _codec_classes
+
+
+def mk_codec(shape):
+    RawCodec, RawAll = codec_classes()
+    return RawAll() if shape < 0 else RawCodec(shape)
+
+
+def split_cfg(cfgv):
+    """-> (base 17 slots, [(did, shape)], [(did, shape, has_mask, mask_size, [masks])])"""
+    base = list(cfgv[:CFG_LEN])
+    rest = list(cfgv[CFG_LEN:])
+    dids, ios = [], []
+    if rest:
+        nd = rest[0]
+        for i in range(nd):
+            dids.append((rest[1 + 2 * i], rest[2 + 2 * i]))
+        rest = rest[1 + 2 * nd:]
+    if rest:
+        nio = rest[0]
+        pos = 1
+        for _ in range(nio):
+            did, sh, hm, ms, nm = rest[pos:pos + 5]
+            ios.append((did, sh, hm, ms, rest[pos + 5:pos + 5 + nm]))
+            pos += 5 + nm
+    return base, dids, ios
+
+
 def make_client(cfgv, extra_cfg=None):
     import udsoncan.client as uc
     setup()
@@ -140,8 +205,30 @@ def make_client(cfgv, extra_cfg=None):
     uc.time = types.SimpleNamespace(monotonic=clk.monotonic)
     conn = _Conn(clk)
     cfg = {}
+    base, dids, ios = split_cfg(cfgv)
     for slot, key in CFG_KEYS.items():
-        cfg[key] = cfg_value(slot, cfgv[slot], conn)
+        cfg[key] = cfg_value(slot, base[slot], conn)
+    dcfg = {}
+    for did, sh in dids:
+        k = 'default' if did < 0 else did
+        if k not in dcfg:
+            dcfg[k] = mk_codec(sh)
+    cfg['data_identifiers'] = dcfg
+    icfg = {}
+    for did, sh, hm, ms, masks in ios:
+        k = 'default' if did < 0 else did
+        if k in icfg:
+            continue
+        if hm or ms >= 0:
+            e = {'codec': mk_codec(sh)}
+            if hm:
+                e['mask'] = {'m%d' % i: v for i, v in enumerate(masks)}
+            if ms >= 0:
+                e['mask_size'] = ms
+            icfg[k] = e
+        else:
+            icfg[k] = mk_codec(sh)
+    cfg['input_output'] = icfg
     if extra_cfg:
         cfg.update(extra_cfg)
     client = uc.Client(conn, config=cfg)
@@ -254,9 +341,10 @@ def run_history_case(c, extra_cfg=None):
     """c: Case with ints = cfg ++ [nops] ++ ops, blobs in consumption order (see Model/History.v)"""
     a = list(c.ints)
     b = list(c.blobs)
-    cfgv = a[:CFG_LEN]
+    L = a[0]
+    cfgv = a[1:1 + L]
     client, conn, clk = make_client(cfgv, extra_cfg)
-    pos = CFG_LEN
+    pos = 1 + L
     nops = a[pos]
     pos += 1
     out = []
@@ -319,8 +407,16 @@ def run_history_case(c, extra_cfg=None):
 class H:
     """history builder"""
 
-    def __init__(self, cfgv=None):
+    def __init__(self, cfgv=None, dids=None, ios=None):
+        """dids: [(did | -1, shape)] ; ios: [(did | -1, shape, has_mask, mask_size | -1, [mask values])]"""
         self.cfg = list(cfgv if cfgv is not None else DEFAULT_CFG)
+        if len(self.cfg) == CFG_LEN:
+            dids = dids or []
+            ios = ios or []
+            self.cfg += [len(dids)] + [x for d in dids for x in d]
+            self.cfg += [len(ios)]
+            for did, sh, hm, ms, masks in ios:
+                self.cfg += [did, sh, hm, ms, len(masks)] + list(masks)
         self.ints = []
         self.blobs = []
         self.n = 0
@@ -375,7 +471,7 @@ class H:
 
     def case(self, entry, tag):
         from harness.core import Case
-        return Case(entry, self.cfg + [self.n] + self.ints, self.blobs, tag)
+        return Case(entry, [len(self.cfg)] + self.cfg + [self.n] + self.ints, self.blobs, tag)
 
 
 # ---- parsing a rendered history result back into structure (for the oracles) ------------------------
@@ -457,8 +553,9 @@ def case_ops(c):
     """decode the ops of a history case (mirror of Model/History.v decode_ops) for the oracles"""
     a = list(c.ints)
     b = list(c.blobs)
-    cfgv = a[:CFG_LEN]
-    pos = CFG_LEN
+    L = a[0]
+    cfgv = a[1:1 + L]
+    pos = 1 + L
     nops = a[pos]
     pos += 1
     ops = []
